@@ -15,6 +15,25 @@ CLAIMED = ["C01", "C02", "C03", "C04", "C05", "C06", "C07", "C08", "C09", "C10",
            "C13", "C14", "C15", "C16", "C17", "C18", "C19"]
 
 
+def tree_has(repo, what):
+    """does any module of the library contain an assert statement / a call to warnings.warn (syntactic scan)"""
+    import ast
+    pkg = os.path.join(repo, "pyscsi")
+    for root, dirs, files in os.walk(pkg):
+        for f in files:
+            if f.endswith(".py"):
+                try:
+                    tree = ast.parse(open(os.path.join(root, f)).read())
+                except (SyntaxError, OSError):
+                    continue
+                for n in ast.walk(tree):
+                    if what == "assert" and isinstance(n, ast.Assert):
+                        return True
+                    if what == "warn" and isinstance(n, ast.Call) and isinstance(n.func, ast.Attribute) and n.func.attr == "warn":
+                        return True
+    return False
+
+
 def run_property(pid, tier="quick", repo="/repo", quiet=False, evidence=True, out_dir=None):
     """returns (exit_code, Run)"""
     run = Run(pid, tier=tier, repo=repo, quiet=quiet, out_dir=out_dir,
@@ -24,6 +43,34 @@ def run_property(pid, tier="quick", repo="/repo", quiet=False, evidence=True, ou
         from .model import Program
         prog = Program(repo)
         mod.check(prog, run)
+        # the same check under the interpreter flags that change what the library's own statements do -- only when the tree
+        # contains such statements (an assert, a warnings.warn, a bytes/str comparison): `python -O`, `-W error`, `-bb`
+        modes = []
+        if getattr(prog.I, "saw_assert", False) or tree_has(repo, "assert"):
+            modes.append("-O")
+        if getattr(prog.I, "saw_warn", False) or tree_has(repo, "warn"):
+            modes.append("-W error")
+        if getattr(prog.I, "saw_bytes_str_compare", False):
+            modes.append("-bb")
+        for mode in modes:
+            sub = Run(pid, tier=tier, repo=repo, quiet=True, evidence_path="")
+            sub_err = None
+            os.environ["PYSCSI_SA_MODE"] = mode        # programs the check builds itself (C19's binding combinations) inherit it
+            try:
+                mod.check(Program(repo, mode=mode), sub)
+            except AnalysisError as e:
+                sub_err = e
+            finally:
+                os.environ.pop("PYSCSI_SA_MODE", None)
+            have = set((v["rule"], v["construct"]) for v in run.violations)
+            for v in sub.violations:
+                if (v["rule"], v["construct"]) not in have:
+                    run.violation(v["rule"], "%s [under python %s]" % (v["construct"], mode),
+                                  "when the interpreter runs with %s: %s" % (mode, v["message"]), v.get("file"), v.get("line"), v.get("function"))
+            if sub_err is not None and not sub.violations:
+                raise AnalysisError(sub_err.reason, "[under python %s] %s" % (mode, sub_err.detail))
+            run.notes.append("re-evaluated under python %s: %d obligations, %d violations" % (mode, sub.obligations, len(sub.violations)))
+        run.extra["interpreter_modes"] = ["default"] + modes
         if tier == "thorough":
             if hasattr(mod, "thorough"):
                 mod.thorough(prog, run)
